@@ -2,7 +2,7 @@
    Proved here: the sender-side mechanisms (staleness test, resend flag, dead references); that each
    Unreliable/TimeSensitive fragment occurs at most once in the emitted frames is checked on the
    implementation's frames by the oracle and through the model correspondence (see DESIGN.md). *)
-From UF Require Import Consts Base Frame Sender Heap FrameQueue HalfConn HcLemmas ResendKept HcTotal.
+From UF Require Import Consts Base Frame Codec Sender Heap FrameQueue HalfConn HcLemmas ResendKept HcTotal EmitRefs.
 
 (* a packet leaves the send queue with the next sequence id, never as a stale TimeSensitive packet, and is
    marked for retransmission exactly when its mode is Persistent or Reliable *)
@@ -56,5 +56,33 @@ Theorem C12_retransmission_kept :
     let h' := fold_left hc_apply ops h in sched u f h' \/ fin u f (h_snd h').
 Proof. exact retransmission_kept. Qed.
 Print Assumptions C12_retransmission_kept.
+
+(* the link between "this frame was acknowledged" and "these fragments were acknowledged" (EmitRefs.v): push()
+   records a fragment's reference in the frame that carries its datagram, if and only if the fragment is to be
+   retransmitted; a refused push leaves the fragment in no frame; finalize() logs exactly the recorded references *)
+Theorem C12_push_records_reference :
+  forall e uid frag resend e' r we,
+  sender_lookup (h_snd (es_h e)) uid = Some we ->
+  dfe_push e uid frag resend = Ok (e', r) ->
+  let dg := pp_datagram (we_packet we) frag in
+  let ref := mkFragRef uid frag in
+  match r with
+  | None =>
+      exists f, es_ip e' = Some f /\
+        ((exists f0, es_ip e = Some f0 /\ ip_seq f = ip_seq f0 /\ ip_enc f = ip_enc f0 ++ encode_datagram dg /\ ip_count f = ip_count f0 + 1 /\
+                     ip_refs f = (if resend then ip_refs f0 ++ [ref] else ip_refs f0) /\ es_out e' = es_out e) \/
+         (ip_enc f = encode_datagram dg /\ ip_count f = 1 /\ ip_refs f = (if resend then [ref] else []) /\
+          es_out e' = es_out (dfe_finalize e)))
+  | Some _ => es_ip e' = None /\ es_out e' = es_out (dfe_finalize e)
+  end.
+Proof. exact dfe_push_records_reference. Qed.
+Print Assumptions C12_push_records_reference.
+
+Theorem C12_finalize_logs_recorded_refs :
+  forall e f, es_ip e = Some f ->
+  h_fq (es_h (dfe_finalize e)) =
+    fq_push (h_fq (es_h e)) (len (build_data_frame (ip_seq f) (ip_nonce f) (ip_enc f) (ip_count f))) (h_now (es_h e)) (ip_refs f) (ip_nonce f) /\
+  es_out (dfe_finalize e) = es_out e ++ [build_data_frame (ip_seq f) (ip_nonce f) (ip_enc f) (ip_count f)].
+Proof. exact dfe_finalize_logs_recorded_refs. Qed.
 
 Check C12_emit_packet.
